@@ -309,6 +309,14 @@ func (ex *Exec) valEq(a, b Val, e *CExpr) *Term {
 			same := BoolLit(x.Cell == y.Cell && len(x.Path) == 0 && len(y.Path) == 0)
 			return Or(And(x.nilTerm(), y.nilTerm()), And(Not(x.nilTerm()), Not(y.nilTerm()), same))
 		}
+	case *FuncV:
+		// contract-only: two function values are the same if they come from the same literal or name the same function
+		if y, ok := b.(*FuncV); ok {
+			if x.Lit != nil || y.Lit != nil {
+				return BoolLit(x.Lit == y.Lit)
+			}
+			return BoolLit(x.Name != "" && x.Name == y.Name)
+		}
 	case *SliceV:
 		switch y := b.(type) {
 		case *SliceV:
